@@ -42,6 +42,10 @@ func TestKey() []byte {
 type Call struct {
 	Tag  int32
 	Kind rpcsrv.Kind
+	// After, when set, delays the call until the condition holds on the world.
+	After func(w *World) bool `json:"-"`
+	// MayFailOnConnLoss: the call races with a connection loss; an error return is then acceptable.
+	MayFailOnConnLoss bool
 }
 
 type CallResult struct {
@@ -62,9 +66,10 @@ type Scenario struct {
 	Script  []rpcsrv.Event
 	Salt    int64
 	// StoredSalt differs from Salt when the server has rotated while the client was away.
-	StoredSalt *int64
-	Handler    bool // register a custom server-request handler that accepts everything
-	Setup      func(w *World)
+	StoredSalt   *int64
+	RotateBefore map[int]int64
+	Handler      bool // register a custom server-request handler that accepts everything
+	Setup        func(w *World)
 	// AfterConnect runs in the main thread right after CreateConnection returned.
 	AfterConnect func(w *World)
 }
@@ -85,6 +90,7 @@ type World struct {
 	Blocked []sched.BlockedInfo
 	Points  []sched.Point
 	Trace   []string
+	Extra   map[string]any
 }
 
 // Expected is what the statement promises for a call.
@@ -120,6 +126,9 @@ func DoCall(m *mtproto.MTProto, c Call) (any, error) {
 func CheckResult(r *CallResult) string {
 	if r.Panic != "" {
 		return "caller-panic"
+	}
+	if r.Call.MayFailOnConnLoss && r.Returned && r.Err != nil && strings.Contains(r.Err.Error(), "closed network connection") {
+		return ""
 	}
 	if !r.Returned {
 		return "never-returned"
@@ -161,6 +170,7 @@ func Run(sc *Scenario, prefix []int, tracing bool) *World {
 	w.Srv.Opt = sc.Opt
 	w.Srv.Script = append([]rpcsrv.Event{}, sc.Script...)
 	w.Srv.Clock = s.Clock
+	w.Srv.RotateBefore = sc.RotateBefore
 	w.Net.Servers[Addr] = w.Srv
 	stored := sc.Salt
 	if sc.StoredSalt != nil {
@@ -214,6 +224,9 @@ func Run(sc *Scenario, prefix []int, tracing bool) *World {
 								res.Frame = vr.RepoFrame(3)
 							}
 						}()
+						if res.Call.After != nil {
+							s.WaitUntil("call-precondition", func() bool { return res.Call.After(w) })
+						}
 						v, err := DoCall(m, res.Call)
 						res.Val, res.Err, res.Returned = v, err, true
 					}()
@@ -300,4 +313,18 @@ func orOK(s string) string {
 		return "ok"
 	}
 	return s
+}
+
+// ReaderIdle: some receive loop is parked in Conn.Read of the newest connection.
+func (w *World) ReaderIdle() bool {
+	if len(w.Net.Conns) == 0 {
+		return false
+	}
+	newest := w.Net.Conns[len(w.Net.Conns)-1]
+	for _, t := range w.S.Threads() {
+		if !t.Done() && t.Pending() == sched.OpWait && t.PendingObj() == interface{}(newest) {
+			return true
+		}
+	}
+	return false
 }
